@@ -17,7 +17,7 @@ use super::{
 pub struct Parser<'i> {
     input: &'i [u8],
     msg_input: &'i [u8],
-    pending_list_entries: u32,
+    pending_list_entries: u64,
 }
 
 impl<'i> Parser<'i> {
@@ -41,7 +41,7 @@ impl<'i> Parser<'i> {
                 let (input, msg) = MessageStart::parse(self.input)?;
                 self.input = input;
                 if let MessageBody::GetListResponse(glr) = &msg.message_body {
-                    self.pending_list_entries = glr.num_vals + 2;
+                    self.pending_list_entries = u64::from(glr.num_vals) + 2;
                 } else {
                     self.pending_list_entries = 1;
                 }
